@@ -1,6 +1,7 @@
 """C03 -- the 10000-element cap on lists and dicts cannot be circumvented."""
 from __future__ import annotations
 
+import ast
 from typing import Any, Dict, List, Optional, Set, Tuple
 
 from ..facts import AnalysisError, FuncInfo
@@ -158,6 +159,7 @@ def check(chk: Check) -> None:
                             'hand-over of the container precedes its size check (a host mapping\'s __getitem__/__missing__ may '
                             'insert; a failed operation must leave the container unchanged)', floor=3)
     _r5(chk)
+    _r6(chk)
     chk.decided += ['clause 2 of the statement (element-adding operations at the cap): guard comparison, constant, failure '
                     'class and dominance over every +1 growth path (R1, R2)',
                     'clause 1 as an inductive invariant: inventory of every reachable primitive that can exceed '
@@ -425,6 +427,55 @@ def _first_touch(F, p: Path, label: str, fi, ignore, out) -> None:
         if checked:
             unit = label.split(' [')[0]
             out.setdefault('%s :: size check of `%s` comes first' % (unit, show(X)), (True, fi.where, 'nothing touches the container before its size check'))
+
+
+HOF_BUILTINS = {'map', 'filter', 'sorted', 'reduce', 'functools.reduce', 'min', 'max', 'any', 'all', 'list', 'tuple', 'sum', 'next'}
+
+
+def _r6(chk: Check) -> None:
+    """The failure of the size check has to reach the host as a ParserError: a handler around code that runs the program (or a
+    storing builtin) which takes ParserError and carries on turns "the operation fails" into "the operation silently did
+    nothing"."""
+    F = chk.facts
+    from . import common
+    R6 = chk.rule('C03.R6', 'the size-check failure is not swallowed: no handler in code that runs during an evaluation takes the '
+                            'ParserError of a failed size check out of program code and continues, or replaces it by an error '
+                            'that is not a ParserError', floor=0)
+    seen: Dict[str, Tuple[bool, str, str]] = {}
+    for key, e, p, fi, se in common.handlers_catching(chk, om.PARSER_ERROR):
+        st = e.node
+        h = e.d['handler']
+        mod = F.functions[e.fn].module if e.fn in F.functions else fi.module
+        runs_program = False
+        for n in (x for b in st.body for x in ast.walk(b)):
+            if not isinstance(n, ast.Call):
+                continue
+            r = F.resolve_expr(mod, n.func)
+            if r[0] in ('builtin', 'ext') and r[1] not in HOF_BUILTINS:
+                continue            # a library call on plain values raises no ParserError
+            if r[0] == 'cls':
+                continue
+            runs_program = True
+        if not runs_program:
+            continue
+        wh = '%s:%d' % (mod.rel, h.lineno)
+        if p.outcome[0] == 'raise':
+            o = freeze(p.outcome[1])
+            rc = common.raised_class(F, p.outcome[1])
+            if o[:1] == ('exc',) or o == ('unknown', 'reraise') or (rc is not None and rc[0] == 'cls' and F.is_subclass(rc[1], om.PARSER_ERROR)):
+                seen.setdefault(key, (True, wh, 'the failure leaves the handler as a ParserError'))
+                continue
+            seen[key] = (False, wh, 'a failed size check inside the guarded code (a ParserError) leaves this handler as %s, which is '
+                                    'not a ParserError' % show(p.outcome[1]))
+        else:
+            seen[key] = (False, wh, 'this handler takes the ParserError of a failed size check raised by the guarded program code and '
+                                    'continues normally: the element-adding operation at the cap no longer fails, the run goes on as '
+                                    'if it had been legal')
+    for key, (ok, wh, det) in sorted(seen.items()):
+        chk.require(ok, R6, key, wh, det)
+    if not seen:
+        chk.ok(R6, 'no handler on the evaluation paths receives a ParserError raised by program code', F.func(om.ROOT + '.eval').where,
+               'every except clause reachable during an evaluation names classes ParserError is not a subclass of')
 
 
 def _r5(chk: Check) -> None:
